@@ -920,6 +920,103 @@ def check_sweep(run, impl_exe, cli, rng, tier, stops=True):
         shutil.rmtree(tmp, ignore_errors=True)
 
 
+
+def import_cycle_trees(root):
+    """-> list of (name, entry file, kind, expected)  kind = cycle (expected = number of files on the cycle) | value"""
+    def w(rel, text):
+        path = os.path.join(root, rel)
+        os.makedirs(os.path.dirname(path), exist_ok=True)
+        open(path, 'w').write(text)
+        return path
+    T = []
+    w('self/a.jsonnet', 'import "a.jsonnet"')
+    T.append(('self-import', 'self/a.jsonnet', 'cycle', 1))
+    w('two/a.jsonnet', 'import "b.jsonnet"'); w('two/b.jsonnet', 'import "a.jsonnet"')
+    T.append(('two-files', 'two/a.jsonnet', 'cycle', 2))
+    w('three/a.jsonnet', 'import "b.jsonnet"'); w('three/b.jsonnet', '(import "c.jsonnet") + 1'); w('three/c.jsonnet', '[import "a.jsonnet"][0]')
+    T.append(('three-files', 'three/a.jsonnet', 'cycle', 3))
+    w('dot/a.jsonnet', 'import "./b.jsonnet"'); w('dot/b.jsonnet', 'import "./a.jsonnet"')
+    T.append(('dot-slash', 'dot/a.jsonnet', 'cycle', 2))
+    w('updir/a.jsonnet', 'import "sub/b.jsonnet"'); w('updir/sub/b.jsonnet', 'import "../a.jsonnet"')
+    T.append(('dotdot', 'updir/a.jsonnet', 'cycle', 2))
+    w('zigzag/a.jsonnet', 'import "./sub/../sub/b.jsonnet"'); w('zigzag/sub/b.jsonnet', '{ x: import "../sub/../a.jsonnet" }.x')
+    T.append(('dotdot-zigzag', 'zigzag/a.jsonnet', 'cycle', 2))
+    pa = w('abs/a.jsonnet', 'import "b.jsonnet"'); w('abs/b.jsonnet', 'import %s' % json.dumps(pa))
+    T.append(('absolute', 'abs/a.jsonnet', 'cycle', 2))
+    w('deep/a.jsonnet', 'import "x/y/b.jsonnet"'); w('deep/x/y/b.jsonnet', 'import "../../z/c.jsonnet"'); w('deep/z/c.jsonnet', 'import "../a.jsonnet"')
+    T.append(('three-dirs', 'deep/a.jsonnet', 'cycle', 3))
+    w('link/a.jsonnet', 'import "l.jsonnet"')
+    os.symlink('a.jsonnet', os.path.join(root, 'link/l.jsonnet'))
+    T.append(('symlinked-file', 'link/a.jsonnet', 'cycle', 1))
+    w('linkdir/a.jsonnet', 'import "lsub/b.jsonnet"'); w('linkdir/sub/b.jsonnet', 'import "../a.jsonnet"')
+    os.symlink('sub', os.path.join(root, 'linkdir/lsub'))
+    T.append(('symlinked-dir', 'linkdir/a.jsonnet', 'cycle', 2))
+    w('field/a.jsonnet', '{ v: (import "sub/b.jsonnet").v }.v'); w('field/sub/b.jsonnet', '{ v: import "../a.jsonnet" }')
+    T.append(('through-fields', 'field/a.jsonnet', 'cycle', 2))
+    # not cycles
+    w('str/a.jsonnet', 'std.length(importstr "a.jsonnet")')
+    T.append(('importstr-self', 'str/a.jsonnet', 'value', '33'))
+    w('bin/a.jsonnet', 'std.length(importbin "a.jsonnet")')
+    T.append(('importbin-self', 'bin/a.jsonnet', 'value', '33'))
+    w('diamond/a.jsonnet', '(import "b.jsonnet") + (import "sub/c.jsonnet")'); w('diamond/b.jsonnet', '(import "sub/../d.jsonnet") + 1')
+    w('diamond/sub/c.jsonnet', '(import "../d.jsonnet") + 2'); w('diamond/d.jsonnet', '10')
+    T.append(('diamond', 'diamond/a.jsonnet', 'value', '23'))
+    w('lazy/a.jsonnet', '{ x: 1, y: (import "sub/../a.jsonnet").x }'); w('lazy/sub/keep.txt', '')
+    T.append(('lazy-self-reference', 'lazy/a.jsonnet', 'value', '{"x":1,"y":1}'))
+    return T
+
+
+def check_import_cycles(run, cli):
+    """import cycles through the real CLI: the oracle of C10_cycle_detected — InfiniteRecursion once the limit
+    exceeds the cycle, StackOverflow only below it; every spelling of a path names the same file"""
+    tmp = tempfile.mkdtemp(prefix='rsj-verif-c10i.')
+    try:
+        trees = import_cycle_trees(tmp)
+        jobs = [(t, s) for t in trees for s in (1, 50, 500)]
+
+        def one(job):
+            (name, entry, kind, exp), s = job
+            try:
+                p = subprocess.run([cli, '-s', str(s), os.path.join(tmp, entry)], stdout=subprocess.PIPE, stderr=subprocess.PIPE,
+                                   timeout=60, env=dict(os.environ, NO_COLOR='1'))
+                return p.returncode, p.stdout.decode('utf-8', 'replace'), p.stderr.decode('utf-8', 'replace')
+            except subprocess.TimeoutExpired:
+                return None, '', ''
+        from concurrent.futures import ThreadPoolExecutor
+        with ThreadPoolExecutor(max_workers=vlib.NCPU) as ex:
+            outs = list(ex.map(one, jobs))
+        for ((name, entry, kind, exp), s), (rc, out, err) in zip(jobs, outs):
+            run.evaluations += 1
+            first = err.split('\n')[0]
+            replay = {'kind': 'import', 'name': name, 'stack': s, 'entry': entry}
+            where = 'import tree %s under -s %d' % (name, s)
+            if rc is None or rc not in (0, 1):
+                run.violation('import-native-failure:' + name, '%s: %s' % (where, 'hang' if rc is None else 'exit %d %s' % (rc, err[-100:])), replay)
+            elif kind == 'cycle':
+                if rc == 0:
+                    run.violation('import-cycle-not-detected:' + name, '%s evaluates to %s' % (where, out[:40]), replay)
+                elif 'infinite recursion' in first:
+                    run.nontrivial.add(('import-cycle', name))
+                    run.count('import_cycle_inf')
+                elif 'stack overflow' in first:
+                    run.count('import_cycle_so')
+                    if s >= 3 * exp + 8:
+                        run.violation('import-cycle-reported-as-overflow:' + name, '%s: a cycle of %d file(s) is reported as stack overflow although the limit is far larger (the same file is not recognised under another spelling of its path)' % (where, exp), replay)
+                else:
+                    run.violation('import-cycle-unexpected-error:' + name, '%s: %s' % (where, first[:80]), replay)
+            else:
+                text = out.strip().replace('\n', '').replace(' ', '')
+                if rc == 0 and text == exp:
+                    run.nontrivial.add(('import-value', name))
+                    run.count('import_value_ok')
+                elif rc == 1 and 'stack overflow' in first and s < 20:
+                    run.count('import_value_so_small_limit')
+                else:
+                    run.violation('import-non-cycle-fails:' + name, '%s: exit %s, stdout %r, %s (expected %s)' % (where, rc, out[:40], first[:60], exp), replay)
+    finally:
+        shutil.rmtree(tmp, ignore_errors=True)
+
+
 # ================================================================ main
 
 def check(run):
@@ -951,6 +1048,7 @@ def check(run):
     stops = canary(run, impl_exe)
     check_endless_data(run, impl_exe)
     check_depthsem(run, impl_exe, model_exe, rng, run.tier, stops)
+    check_import_cycles(run, cli)
     check_sweep(run, impl_exe, cli, rng, run.tier, stops)
 
 
